@@ -262,6 +262,16 @@ package meta
 //@   pureeffect
 //@   requires [status_for_the_current_epoch_and_the_target] a1 == target && a2 == currEpoch
 //@   defines result == targetStatus()
+// The status of the target hides a tombstone behind an expiry (an expired object reports
+// "expired" whatever else is true of it), so the admission of a lock asks for the target's
+// removal mark itself.
+//@ ghost field targetMarkAsked(x int) bool
+//@ ghost field targetTombstoneSeen(x int) bool
+//@ callrule c07_target_removal_mark in handleObjectWithAssociation
+//@   property C07
+//@   callee metabase.inGarbage
+//@   assigns targetMarkAsked, targetTombstoneSeen
+//@   defines targetMarkAsked(0) == (old(targetMarkAsked(0)) || a1 == target) && targetTombstoneSeen(0) == (old(targetTombstoneSeen(0)) || (a1 == target && result == statusTombstoned))
 //@ callrule c07_tombstone_collaborators in handleObjectWithAssociation
 //@   property C07
 //@   callee (*bbolt.Cursor).*, (*bbolt.Bucket).Cursor, metabase.fetchTypeForID, metabase.collectChildren, metabase.get, metabase.inGarbage, metabase.mkGarbageKey, (object.Object).*, (*object.Object).*, (*oid.Address).*, (id.ID).*
@@ -287,6 +297,9 @@ package meta
 //@   property C07
 //@   ensures [lock_on_tombstoned_target_rejected] err == nil && typ == object.TypeLock ==> targetStatus() != statusTombstoned
 //@   ensures [tombstone_accepted_only_for_unlocked_target] err == nil && typ == object.TypeTombstone ==> targetNotLocked()
+//@   ensures [lock_on_tombstoned_target_rejected_also_when_the_target_has_expired] err == nil && typ == object.TypeLock ==> targetMarkAsked(0) && !targetTombstoneSeen(0)
+//@   valid !targetMarkAsked(0) && !targetTombstoneSeen(0)
+//@   loop 1 invariant !targetMarkAsked(0) && !targetTombstoneSeen(0) || typ != object.TypeLock
 //@   ensures [lock_object_cannot_be_tombstoned] err == nil && typ == object.TypeTombstone && targetTypErr == nil ==> targetTyp != object.TypeLock
 
 // ---- C06: cursor listing kernel. Every call of selectNFromBucket consults the container's
